@@ -1,5 +1,6 @@
 import BU.Properties.C15
 import BU.Properties.C15_Gen
+import BU.Properties.C15_GenBlock
 import BU.Properties.C15_GenHeader
 #print axioms C15.header_roundtrip
 #print axioms C15.header_fields
@@ -9,6 +10,9 @@ import BU.Properties.C15_GenHeader
 #print axioms C15.scanner_agrees
 #print axioms C15.block_parse
 #print axioms C15Gen.gen_tx_length
+#print axioms C15GenBlock.gen_block_from_raw
+#print axioms C15GenBlock.gen_block_ok
+#print axioms C15GenBlock.gen_block_parse
 #print axioms C15GenHeader.gen_header_from_raw
 #print axioms C15GenHeader.gen_header_serialize
 #print axioms C15GenHeader.gen_header_hash
